@@ -12,7 +12,9 @@
 // BindRequest status patch instead.
 //
 // Input  (-in): ndjson schedules {"id","lim","req":{"p1":100,..},"present":["p1",..],"steps":[{"n","p","out"}]}
-//               as exported by TLC from spec/Handoff.tla; or -random N -seed S -len K -pods P.
+//
+//	as exported by TLC from spec/Handoff.tla; or -random N -seed S -len K -pods P.
+//
 // Output (-out): ndjson trace: a Scenario line, then one line per step with the projection of the real
 // stores (`st`), of the real snapshot (`snap`, cycles only) and of the reconcile result (`rec`).
 // Integers and strings only; -1 = nil backoffLimit; quantities in centi-GPU / milli-CPU.
@@ -125,10 +127,12 @@ type world struct {
 	bindCalled, bindFailed, getFailed bool
 
 	// harness-side bookkeeping (ghost state of the trace)
-	created map[string]int  // BindRequest incarnations per pod
-	q       map[string]bool // controller-runtime work queue (see spec/Handoff.tla)
-	att     map[string]int  // binding sub-resource calls of the current incarnation
-	fl      map[string]int  // failed reconciles of the current incarnation
+	createCalls     int
+	lastUID         map[string]types.UID
+	created         map[string]int  // BindRequest incarnations per pod (distinct UIDs observed in the store)
+	q               map[string]bool // controller-runtime work queue (see spec/Handoff.tla)
+	att             map[string]int  // binding sub-resource calls of the current incarnation
+	fl              map[string]int  // failed reconciles of the current incarnation
 	restarts, flips int
 
 	watchMu  sync.Mutex
@@ -138,7 +142,7 @@ type world struct {
 func int32p(v int32) *int32 { return &v }
 
 func newWorld(sc scenario, pods []string) *world {
-	w := &world{sc: sc, pods: pods, watching: map[string]bool{}, created: map[string]int{}, q: map[string]bool{}, att: map[string]int{}, fl: map[string]int{}}
+	w := &world{sc: sc, pods: pods, watching: map[string]bool{}, lastUID: map[string]types.UID{}, created: map[string]int{}, q: map[string]bool{}, att: map[string]int{}, fl: map[string]int{}}
 	w.kube = kubefake.NewSimpleClientset()
 	w.kai = kaifake.NewSimpleClientset()
 	ctx := context.Background()
@@ -167,8 +171,8 @@ func newWorld(sc scenario, pods []string) *world {
 	// leaves it nil), the store assigns the UID.
 	w.kai.PrependReactor("create", "bindrequests", func(a k8stesting.Action) (bool, runtime.Object, error) {
 		br := a.(k8stesting.CreateAction).GetObject().(*schedulingv1alpha2.BindRequest)
-		w.created[br.Spec.PodName]++
-		br.UID = types.UID(fmt.Sprintf("br-%s-%d", br.Spec.PodName, w.created[br.Spec.PodName]))
+		w.createCalls++ // attempts; an incarnation is counted when a new UID is observed in the store (observeBrs)
+		br.UID = types.UID(fmt.Sprintf("br-%s-%d", br.Spec.PodName, w.createCalls))
 		if w.sc.Lim >= 0 {
 			br.Spec.BackoffLimit = int32p(int32(w.sc.Lim))
 		}
@@ -583,6 +587,10 @@ func (w *world) projectStore() map[string]any {
 	for _, p := range w.pods {
 		pod := w.getPod(p)
 		br := w.getBr(p)
+		if br != nil && br.UID != w.lastUID[p] {
+			w.lastUID[p] = br.UID
+			w.created[p]++
+		}
 		e := map[string]any{"alive": b2i(pod != nil), "bound": 0, "node": "", "ex": b2i(br != nil), "ph": "", "fa": 0, "lim": -1,
 			"sel": "", "gen": w.created[p] % 2, "q": b2i(w.q[p]), "att": w.att[p], "fl": w.fl[p]}
 		if pod != nil {
